@@ -1142,6 +1142,9 @@ def sig_for(c, diffs):
     """specific, stable signature of a failing well-formed case"""
     text = ' '.join(diffs)
     codes = {a['code'] for a in c['desc']['attrs']} if c['desc'] else set()
+    mp0 = c['desc'].get('mp_reach') if c['desc'] else None
+    if 'not decoded' in text and 'next-hop length 48' in text and mp0 and tuple(mp0['fam']) == (2, 128) and len(mp0['nh']) == 40:
+        return 'C02:vpn6-nexthop-48-refused'
     if 2 in codes and 17 in codes and ('attribute 2' in text or 'as-path' in text or 'not decoded' in text or 'attribute 17' in text):
         if 'not decoded' in text:
             return 'C02:as4-merge:exception'
